@@ -1879,6 +1879,321 @@ LOADER_CHECKER = "fun c => match c with (ps, single, impl) => loader_case_ok ps 
 # ----------------------------------------------------------------------------
 
 
+
+# ----------------------------------------------------------------------------
+# round j extension: the tables and dicts merge_parts builds (Model/C15_Code.v)
+
+MAP_VOICES = [[5, 2, 5, 1], [3, 1], [2, 7, 4], [1, 1, 2], [6], [2, 1], [4, 4, 9, 2, 9], [1, 2, 3], [8, 3]]
+MAP_STAVES = [[None, 3, 1], [2, 2], [None, None], [1, None], [4, 2, 3], [3], [2, None, 2], [1, 2], [5, 1]]
+
+
+def mapping_cases(rng, n_per_mode):
+    """Small cases aimed at the arrays np.unique returns and the dicts built from them: numbers in use that are
+    first seen unsorted, with gaps and repetitions, a missing staff next to an explicit staff 1, a staff / voice
+    used by a rest, words or a clef only, in 2-3 parts of different divisions (three time points per part)."""
+    out = []
+    for mode in MODES:
+        for k in range(n_per_mode):
+            n = rng.choice([2, 2, 3])
+            divs = list(rng.choice([(2, 3), (3, 2), (4, 6), (1, 1), (2, 3, 4), (6, 4, 3), (2, 2, 5), (1, 2)]))
+            while len(divs) < n:
+                divs.append(rng.choice([1, 2, 3]))
+            parts = []
+            for pi in range(n):
+                d = divs[pi]
+                vs = list(rng.choice(MAP_VOICES))
+                ss = list(rng.choice(MAP_STAVES))
+                if rng.random() < 0.3:
+                    rng.shuffle(vs)
+                els = []
+                for j, v in enumerate(vs):
+                    t = (j % 3) * d
+                    els.append({"cls": "Note", "s": t, "e": t + d, "voice": v, "staff": ss[j % len(ss)], "pitch": 55 + 3 * pi + j})
+                r = rng.random()
+                extra_staff = rng.choice([None, 1, max(x or 1 for x in ss) + rng.choice([1, 2]), 1 + rng.randrange(3)])
+                if r < 0.3:
+                    els.append({"cls": "Rest", "s": 0, "e": d, "voice": max(vs) + rng.choice([1, 3]), "staff": extra_staff})
+                elif r < 0.5:
+                    els.append({"cls": "Words", "s": 0, "e": None, "staff": extra_staff})
+                elif r < 0.7 and extra_staff is not None:
+                    els.append({"cls": "Clef", "s": 0, "e": None, "staff": extra_staff})
+                parts.append({"id": "P%d" % pi, "divs": d, "elems": els, "note_prefix": "q%d" % pi})
+            out.append({"mode": mode, "container": {"type": rng.choice(["list", "list", "tuple", "score"]), "tree": list(range(n))},
+                        "parts": parts, "pickup": False, "mapping_stream": True})
+    return out
+
+
+def code_pairs(case, obs):
+    """Per input (in the order of the call): the (voice before, voice after) pairs of its GenericNote elements and the
+    (staff-or-1 before, staff after) pairs of its staff-bearing elements, read off the merged part."""
+    by_oid = {b["oid"]: b for b in obs["before"]}
+    vps, sps = [], []
+    for pi in obs["flat"]:
+        vp, sp = set(), set()
+        for m in obs["merged"]:
+            if m["part"] != pi or m["oid"] not in by_oid:
+                continue
+            b = by_oid[m["oid"]]
+            if b["kind"] in GENERIC_KINDS and b["voice"] is not None and m["voice"] is not None:
+                vp.add((int(b["voice"]), int(m["voice"])))
+            if b["kind"] in STAFFED_KINDS and m["staff"] is not None:
+                sp.add((int(b["staff"]) if b["staff"] is not None else 1, int(m["staff"])))
+        vps.append(sorted(vp))
+        sps.append(sorted(sp))
+    return vps, sps
+
+
+def c_code(case, obs, term):
+    """(the plain term, vpairs, spairs) for Model.C15_Code.code_case_ok."""
+    if "merged" in obs and len(obs["flat"]) > 1 and case["mode"] == "auto" and "exc" not in obs:
+        vps, sps = code_pairs(case, obs)
+    else:
+        vps, sps = [], []
+    pr = lambda l: "(%s : list (list (Z * Z)))" % clist(["(%s : list (Z * Z))" % clist(["(%s, %s)" % (cz(a), cz(b)) for a, b in x]) for x in l])
+    return "(%s, %s, %s)" % (term, pr(vps), pr(sps))
+
+
+def code_stats(obs):
+    """Input distribution of the code-level stream, from the inputs as they are at the call."""
+    tags = set()
+    flat = obs.get("flat") or []
+    if len(flat) < 2 or "before" not in obs:
+        return []
+    for k, pi in enumerate(flat):
+        els = [b for b in obs["before"] if b["part"] == pi]
+        vs = [int(b["voice"]) for b in els if b["kind"] in GENERIC_KINDS and b["voice"] is not None]
+        ss = [(int(b["staff"]) if b["staff"] is not None else 1) for b in els if b["kind"] in STAFFED_KINDS]
+        where = "first_input" if k == 0 else ("last_input" if k == len(flat) - 1 else "middle_input")
+        for nm, l in (("voices", vs), ("staves", ss)):
+            if not l:
+                tags.add("%s:none_in_use:%s" % (nm, where))
+                continue
+            u = sorted(set(l))
+            first = [x for i, x in enumerate(l) if x not in l[:i]]
+            if first != u:
+                tags.add("%s:first_seen_unsorted" % nm)
+            if len(l) > len(u):
+                tags.add("%s:repeated" % nm)
+            if u != list(range(1, len(u) + 1)):
+                tags.add("%s:not_1_to_n:%s" % (nm, where))
+            if len(u) >= 3:
+                tags.add("%s:three_or_more" % nm)
+        if any(b["staff"] is None for b in els if b["kind"] in STAFFED_KINDS) and any(b["staff"] == 1 for b in els if b["kind"] in STAFFED_KINDS):
+            tags.add("staves:missing_and_explicit_1")
+        if {(int(b["staff"]) if b["staff"] is not None else 1) for b in els if b["kind"] in STAFFED_KINDS and b["kind"] not in GENERIC_KINDS} - \
+           {(int(b["staff"]) if b["staff"] is not None else 1) for b in els if b["kind"] in GENERIC_KINDS}:
+            tags.add("staves:one_used_by_words_or_clef_only")
+    return sorted(tags)
+
+
+CODE_CHECKER = "fun c => match c with ((m, a, o, _, _, _), vp, sp) => code_case_ok m a o vp sp end"
+CODE_IMPORTS = "From PV Require Import Lib.Base Model.C05 Model.C15 Model.C15_Code."
+
+
+
+# ----------------------------------------------------------------------------
+# round j extension: the head of merge_parts (Model/C15_Entry.v): the reassign string, one part, changing divisions
+
+ENTRY_BAD = ["both", "Voice", "", "voices", "staff ", "AUTO", "all", "auto_", "v"]
+
+
+def entry_cases(rng, n):
+    """Calls of merge_parts with the mode as a string (the three accepted ones and others), 0-3 small parts of which some
+    change their divisions once (set_quarter_duration at a later time), in a list / tuple / group / nested group / Score."""
+    out = []
+    for k in range(n):
+        reassign = rng.choice(MODES) if rng.random() < 0.55 else rng.choice(ENTRY_BAD)
+        nparts = rng.choice([0, 1, 1, 1, 2, 2, 2, 3])
+        shape = rng.choice(["list", "tuple", "group", "nested", "score"]) if nparts else rng.choice(["list", "tuple", "group"])
+        parts = []
+        for pi in range(nparts):
+            d = rng.choice([1, 2, 3, 4, 6])
+            qd = [[0, d]]
+            r = rng.random()
+            if r < 0.35:
+                qd.append([rng.choice([1, 2, 4]) * d, rng.choice([x for x in (1, 2, 3, 4, 5, 8) if x != d])])
+            elif r < 0.45:
+                qd.append([2 * d, d])                 # redundant: the array keeps one entry
+            notes = []
+            for j in range(rng.choice([1, 2, 3])):
+                notes.append([j * d, (j + 1) * d, rng.choice([1, 1, 2, 3]), rng.choice([None, 1, 2]), 60 + 2 * pi + j])
+            parts.append({"qd": qd, "notes": notes})
+        out.append({"reassign": reassign, "shape": shape, "parts": parts})
+    return out
+
+
+def run_entry_case(ec):
+    """Build the parts, call merge_parts(argument, reassign) of the tree under test, report what happened."""
+    import partitura.score as S
+    parts, objs, before = [], [], []
+    oid = 0
+    for pi, sp in enumerate(ec["parts"]):
+        p = S.Part("P%d" % pi, quarter_duration=sp["qd"][0][1])
+        os_ = []
+        for (s_, e_, v, st, pitch) in sp["notes"]:
+            step, alter = PC[pitch % 12]
+            n = S.Note(step=step, octave=pitch // 12 - 1, alter=alter or None, id="e%d_%d" % (pi, len(os_)), voice=v, staff=st)
+            p.add(n, s_, e_)
+            os_.append(n)
+        for t, d in sp["qd"][1:]:
+            p.set_quarter_duration(t, d)
+        parts.append(p)
+        objs.append(os_)
+    qds = [[int(x) for x in p._quarter_durations] for p in parts]
+    oid_of = {}
+    for pi, os_ in enumerate(objs):
+        for o in os_:
+            oid += 1
+            oid_of[id(o)] = oid
+            before.append({"part": pi, "oid": oid, "kind": "KNote", "s": int(o.start.t), "e": int(o.end.t), "voice": o.voice, "staff": o.staff,
+                           "pitch": int(o.midi_pitch), "tie_prev": None, "tie_next": None})
+
+    def grp(items):
+        g = S.PartGroup(group_name="g")
+        g.children = list(items)
+        for ch in g.children:
+            ch.parent = g
+        return g
+    sh = ec["shape"]
+    if sh == "list":
+        arg, tree = list(parts), list(range(len(parts)))
+    elif sh == "tuple":
+        arg, tree = tuple(parts), list(range(len(parts)))
+    elif sh == "group":
+        arg, tree = grp(parts), [list(range(len(parts)))]
+    elif sh == "nested":
+        arg, tree = [parts[0], grp([grp(parts[1:])])], [0, [list(range(1, len(parts)))]]
+    else:
+        arg, tree = S.Score(list(parts)), list(range(len(parts)))
+    res = {"qds": qds, "before": before, "tree": tree}
+    try:
+        r = S.merge_parts(arg, ec["reassign"])
+    except ValueError as e:
+        res["outcome"] = "value_error"
+        return res
+    except Exception as e:
+        res["outcome"] = "divisions_error" if ("multiple divisions" in " ".join(str(a) for a in e.args)) else "other_raise"
+        res["exc"] = type(e).__name__
+        return res
+    for pi, p in enumerate(parts):
+        if r is p:
+            res["outcome"] = "single"
+            res["idx"] = pi
+            res["unchanged"] = [int(x) for x in p._quarter_durations] == qds[pi] and all(
+                (int(o.start.t), int(o.end.t), o.voice, o.staff) == (b["s"], b["e"], b["voice"], b["staff"])
+                for o, b in zip(objs[pi], [b for b in before if b["part"] == pi]))
+            return res
+    res["outcome"] = "merged"
+    res["L"] = [int(x) for x in r._quarter_durations]
+    merged = []
+    for o in r.iter_all():
+        if id(o) in oid_of:
+            b = [b for b in before if b["oid"] == oid_of[id(o)]][0]
+            merged.append(dict(b, s=int(o.start.t), e=int(o.end.t), voice=(int(o.voice) if o.voice is not None else None),
+                               staff=(int(o.staff) if o.staff is not None else None)))
+        else:
+            res["foreign"] = type(o).__name__
+    res["merged"] = sorted(merged, key=lambda m: m["oid"])
+    return res
+
+
+def entry_oracle(ec, res):
+    """The statement on the call itself (independent of the Coq model): what must come out for this input."""
+    n = len(ec["parts"])
+    if ec["reassign"] not in MODES:
+        return None if res["outcome"] == "value_error" else "reassign=%r is not one of the three modes but merge_parts did not raise ValueError (%s)" % (ec["reassign"], res["outcome"])
+    if n == 1:
+        if res["outcome"] != "single" or res.get("idx") != 0 or not res.get("unchanged"):
+            return "a single part (in a %s) is not returned as it is: %s" % (ec["shape"], res["outcome"])
+        return None
+    if n >= 2 and any(len(q) != 1 for q in res["qds"]):
+        return None if res["outcome"] == "divisions_error" else "a part with several divisions values was not rejected by the documented exception (%s)" % res["outcome"]
+    if n >= 2:
+        if res["outcome"] != "merged":
+            return "merge of %d parts with one divisions value each: %s %s" % (n, res["outcome"], res.get("exc", ""))
+        L = lcm_list([q[0] for q in res["qds"]])
+        if res["L"] != [L] or res.get("foreign") or len(res["merged"]) != len(res["before"]):
+            return "merged part counts in %r (lcm %d), elements %d of %d" % (res["L"], L, len(res["merged"]), len(res["before"]))
+        for m, b in zip(res["merged"], res["before"]):
+            d = res["qds"][b["part"]][0]
+            if m["s"] * d != b["s"] * L or m["e"] * d != b["e"] * L:
+                return "note %d of input %d moved in musical time" % (b["oid"], b["part"])
+    return None
+
+
+def c_entry(ec, res):
+    def xp(pi):
+        els = [b for b in res["before"] if b["part"] == pi]
+        return "(XPart ((%s : list elem), (%s : list Z)))" % (clist([c_elem(b) for b in els]), clist([cz(x) for x in res["qds"][pi]]))
+
+    def tr(t):
+        return xp(t) if isinstance(t, int) else "(XGroup (%s : list xtree))" % clist([tr(x) for x in t])
+    o = {"value_error": "EValueError", "divisions_error": "EDivisionsError", "other_raise": "EOtherRaise"}.get(res["outcome"])
+    if res["outcome"] == "single":
+        o = "(ESingle %s)" % cnat(res["idx"])
+    elif res["outcome"] == "merged":
+        o = "(EMerged %s (%s : list (nat * elem)))" % (cz(res["L"][0]), clist(["(%s, %s)" % (cnat(m["part"]), c_elem(m)) for m in res["merged"]]))
+    return "(%s, (%s : list xtree), %s)" % (core.cstr(ec["reassign"]), clist([tr(t) for t in res["tree"]]), o)
+
+
+ENTRY_CHECKER = "fun c => match c with (s, ts, o) => entry_case_ok s ts o end"
+ENTRY_IMPORTS = "From PV Require Import Lib.Base Model.C05 Model.C15 Model.C15_Entry.\nFrom Coq Require Import String."
+
+
+def entry_inside(ec, res):
+    """Inside the property: one of the three modes and either one part (returned as it is) or two or more parts with
+    one divisions value each.  Everything else (another string, no part, a part whose divisions change among several) is
+    what the code rejects: compared and recorded, never a violation."""
+    n = len(ec["parts"])
+    return ec["reassign"] in MODES and (n == 1 or (n >= 2 and all(len(q) == 1 for q in res["qds"])))
+
+
+def entry_stream(ctx, quick):
+    """Run the entry cases in-process (small parts), oracle at once; returns (terms inside the property, their cases,
+    terms outside, oracle failures outside)."""
+    terms, ecs, oterms, ofail = [], [], [], []
+    for ec in entry_cases(ctx.rng, 60 if quick else 600):
+        try:
+            res = run_entry_case(ec)
+        except Exception as e:      # building the argument failed (not the call under test)
+            ctx.count("entry:skipped:" + type(e).__name__)
+            continue
+        ctx.evaluations += 1
+        n = len(ec["parts"])
+        inside = entry_inside(ec, res)
+        ctx.count("entry:" + ("inside_the_property" if inside else "rejected_input(outside_quantifier)"))
+        ctx.count("entry:outcome:" + res["outcome"])
+        ctx.count("entry:reassign:" + (ec["reassign"] if ec["reassign"] in MODES else "not_a_mode"))
+        ctx.count("entry:parts=%d" % n)
+        ctx.count("entry:shape:" + ec["shape"])
+        chg = sum(1 for q in res["qds"] if len(q) != 1)
+        if chg:
+            ctx.count("entry:changing_divisions:" + ("single_part" if n == 1 else "among_%d_parts" % n))
+        if ec["reassign"] not in MODES and n == 1:
+            ctx.count("entry:bad_string_with_single_part")
+        if ec["reassign"] not in MODES and chg and n >= 2:
+            ctx.count("entry:bad_string_and_changing_divisions")
+        if any(len(sp["qd"]) == 2 and len(q) == 1 for sp, q in zip(ec["parts"], res["qds"])):
+            ctx.count("entry:redundant_divisions_entry_dropped")
+        bad = entry_oracle(ec, res)
+        if bad and inside:
+            ctx.count("entry:oracle_FAIL")
+            ctx.violation("merge_parts(%s of %d parts, reassign=%r): %s" % (ec["shape"], n, ec["reassign"], bad),
+                          {"kind": "entry", "case": ec, "fclass": "entry", "message": bad})
+            continue
+        if bad:
+            ctx.count("entry:rejected_input_handled_differently(recorded)")
+            ofail.append("merge_parts(%s of %d parts, reassign=%r): %s" % (ec["shape"], n, ec["reassign"], bad))
+            continue
+        ctx.nontrivial({"entry": ec})
+        if inside:
+            terms.append(c_entry(ec, res))
+            ecs.append(ec)
+        else:
+            oterms.append(c_entry(ec, res))
+    return terms, ecs, oterms, ofail
+
+
 class CpuTimeout(BaseException):
     """CPU-time guard (ITIMER_VIRTUAL): a case that does not terminate."""
 
@@ -1945,6 +2260,9 @@ def work_case(item):
                 try:
                     term = c_case(case, obs)
                     slim["term_kind"] = "hist" if "sops" in obs else ("edit" if "ps0" in obs else "plain")
+                    if slim["term_kind"] == "plain" and not obs.get("expected_raise"):
+                        slim["code_term"] = c_code(case, obs, term)
+                        slim["code_stats"] = code_stats(obs)
                     if case.get("pre") and not case.get("edits") and "merged" in obs and 0 in obs["flat"] and len(obs["flat"]) > 1:
                         slim["nested_term"] = c_nested(case, obs)
                 except CpuTimeout:
@@ -2035,6 +2353,8 @@ def run(ctx):
         ss = [ss[i] for i in sorted(rng.sample(range(len(ss)), 40))]
     cases += [("small_scope", c) for c in ss]
     cases.append(("random", gen_case(rng, mode="auto", force_many_voices=True)))
+    # round j: the arrays and dicts merge_parts builds (numbers in use unsorted, with gaps, repeated; None next to 1)
+    cases += [("mapping", c) for c in mapping_cases(rng, 12 if quick else 120)]
     # every TimedObject class of the live hierarchy, in every mode (complete finite domain)
     sweep, skipped = class_sweep_cases(complete=not quick, rot=ctx.seed)
     cases += [("class_sweep", c) for c in sweep]
@@ -2044,6 +2364,7 @@ def run(ctx):
                    not skipped, skipped[:5])
     terms, tcases = [], []
     hterms, hcases, eterms, ecases, nterms, ncases = [], [], [], [], [], []
+    cterms, ccases = [], []     # round j: the code-level model (tables, dicts) against the same observations
     first_obs = {}
     rterms = []                 # cases outside the quantifier (a note or rest without voice): recorded, never a violation
     seen_fail = {}
@@ -2057,7 +2378,7 @@ def run(ctx):
     items = [(ci, origin, case) for ci, (origin, case) in enumerate(cases + again)]
     pool = multiprocessing.get_context("fork").Pool(max(1, min(core.NJOBS if hasattr(core, "NJOBS") else int(os.environ.get("VERIF_JOBS", "8")), 8)))
     results = pool.imap(work_case, items, chunksize=2)
-    ok, why = ctx.coq_props(expect_min=47)
+    ok, why = ctx.coq_props(expect_min=65)
     if not ok:
         ctx.log("coq_props failed: " + why[:2000])
     for (ci, origin, case), (fclass, msg, obs, term, perr, view) in zip(items, results):
@@ -2108,6 +2429,13 @@ def run(ctx):
         if obs.get("nested_term"):
             nterms.append(obs["nested_term"])
             ncases.append(case)
+        if obs.get("code_term"):
+            cterms.append(obs["code_term"])
+            ccases.append(case)
+            ctx.count("code_stream:cases:" + case["mode"])
+            ctx.count("code_stream:origin:" + origin)
+            for t in obs.get("code_stats", []):
+                ctx.count("code_stream:" + t)
         if term is None:
             ctx.violation("cannot print case for Coq: %s" % perr, {"kind": "merge", "case": case, "fclass": "printer"}, no_input=True)
         elif obs.get("term_kind") == "hist":
@@ -2162,6 +2490,13 @@ def run(ctx):
                             ("edit", eterms, ECHECKER, 60), ("nested", nterms, NCHECKER, 60), ("raise", rterms, CHECKER, 60)):
         if tl:
             futs[nm] = ex.submit(ctx.coq_failing, nm, IMPORTS, "", tl, chk, shard=sh)
+    enterms, encases, enout, enofail = entry_stream(ctx, quick)
+    if enterms:
+        futs["entry"] = ex.submit(ctx.coq_failing, "entry", ENTRY_IMPORTS, "", enterms, ENTRY_CHECKER, shard=80)
+    if enout:
+        futs["entry_out"] = ex.submit(ctx.coq_failing, "entry_out", ENTRY_IMPORTS, "", enout, ENTRY_CHECKER, shard=80)
+    if cterms:
+        futs["code"] = ex.submit(ctx.coq_failing, "code", CODE_IMPORTS, "", cterms, CODE_CHECKER, shard=80)
     if lterms:
         try:
             failing = futs["loader"].result()
@@ -2215,6 +2550,49 @@ def run(ctx):
         except RuntimeError as e:
             ctx.obligation("correspondence: %s" % what2, False, str(e)[-1500:])
             ctx.violation("correspondence machinery failed (%s): %s" % (nm, str(e)[-800:]), {"stage": nm}, no_input=True)
+    what3 = ("code-level model (Model/C15_Code.v: np.unique arrays, tables indexed by p_ind, sums over [:p_ind], n_previous_staves, "
+             "voice_mapping / staff_mapping as dict(zip(...)) with KeyError) = implementation: quarter duration and every element with origin, "
+             "start, end, voice, staff; in 'auto' mode every (old, new) voice and staff pair read off the merged part is an entry of the model's dict of that input")
+    if not cterms:
+        ctx.obligation("correspondence: %s on 0 cases" % what3, False, "no case reached the code-level correspondence")
+    else:
+        try:
+            failing = futs["code"].result()
+            ctx.obligation("correspondence: %s on %d cases" % (what3, len(cterms)), not failing, failing[:5])
+            for i in failing[:2]:
+                c = ccases[i]
+                ctx.violation("Coq code-level model (tables and mappings of merge_parts) and implementation disagree on merge_parts(reassign=%r), divisions %r, %s %s" % (
+                    c["mode"], [p_["divs"] for p_ in c["parts"]], c["container"]["type"], json.dumps(c["container"]["tree"]).replace(" ", "")),
+                    {"kind": "merge", "case": c, "fclass": "correspondence", "message": "code-level model/implementation disagree"})
+        except RuntimeError as e:
+            ctx.obligation("correspondence: %s" % what3, False, str(e)[-1500:])
+            ctx.violation("correspondence machinery failed (code): %s" % str(e)[-800:], {"stage": "code"}, no_input=True)
+    what4 = ("head of merge_parts (Model/C15_Entry.v) = implementation inside the property: one of the three modes given as a string; one part (alone, in a "
+             "list / tuple / group / nested groups / Score, also when its divisions change) is the object returned; two or more parts with one divisions value each: "
+             "quarter duration and every element")
+    ctx.obligation("outside the quantifier (recorded only): rejected inputs -- a reassign string that is none of the three raises ValueError (also for one part), a part "
+                   "whose divisions change among two or more parts raises the documented exception -- Python oracle on %d calls" % len(enout + enofail), not enofail, enofail[:5])
+    if enout:
+        try:
+            failing = futs["entry_out"].result()
+            ctx.obligation("outside the quantifier (recorded only): rejected inputs are rejected as Model/C15_Entry.v does (string checked first, then the one-part "
+                           "shortcut, then the divisions; no part: raises) on %d calls" % len(enout), not failing, failing[:5])
+        except RuntimeError as e:
+            ctx.obligation("outside the quantifier (recorded only): entry model on rejected inputs", False, str(e)[-800:])
+    if not enterms:
+        ctx.obligation("correspondence: %s on 0 cases" % what4, False, "no entry case reached the correspondence")
+    else:
+        try:
+            failing = futs["entry"].result()
+            ctx.obligation("correspondence: %s on %d cases" % (what4, len(enterms)), not failing, failing[:5])
+            for i in failing[:2]:
+                c = encases[i]
+                ctx.violation("Coq model of the head of merge_parts and implementation disagree on merge_parts(%s of %d parts, reassign=%r)" % (
+                    c["shape"], len(c["parts"]), c["reassign"]),
+                    {"kind": "entry", "case": c, "fclass": "entry_correspondence", "message": "model/implementation disagree"})
+        except RuntimeError as e:
+            ctx.obligation("correspondence: %s" % what4, False, str(e)[-1500:])
+            ctx.violation("correspondence machinery failed (entry): %s" % str(e)[-800:], {"stage": "entry"}, no_input=True)
     if rterms:
         try:
             failing = futs["raise"].result()
@@ -2249,6 +2627,18 @@ def replay(obj):
         print("oracle:", fclass, msg)
         for sf, sm, sd in (obs or {}).get("soft", []):
             print("oracle (reported separately):", sf, sm)
+    elif r.get("kind") == "entry" and "case" in r:
+        ec = r["case"]
+        print("call: merge_parts(<%s of %d parts>, reassign=%r); parts (quarter durations as [time, value], notes as [start, end, voice, staff, pitch]):" % (
+            ec["shape"], len(ec["parts"]), ec["reassign"]))
+        for sp in ec["parts"]:
+            print("   ", json.dumps(sp))
+        res = run_entry_case(ec)
+        print("implementation:", res["outcome"], {k: res[k] for k in ("idx", "unchanged", "L", "exc", "foreign") if k in res})
+        print("quarter durations of the inputs at the call:", res["qds"])
+        for m in res.get("merged", []):
+            print("   ", (m["oid"], m["part"], m["s"], m["e"], m["voice"], m["staff"]))
+        print("oracle:", entry_oracle(ec, res))
     elif r.get("kind") == "loader":
         os.makedirs(os.path.join(core.WORKROOT, "C15_replay"), exist_ok=True)
         print("oracle:", check_loader(r["case"], os.path.join(core.WORKROOT, "C15_replay"), 0)[0])
